@@ -73,9 +73,9 @@ def container_uses(f, is_container):
             else:
                 other.append(n)
     for st in ast.walk(f):
-        if isinstance(st, ast.Assign) and len(st.targets) == 1 and isinstance(st.targets[0], ast.Subscript) and is_container(st.targets[0].value):
+        if isinstance(st, ast.Assign) and any(isinstance(t, ast.Subscript) and is_container(t.value) for t in st.targets):
             for u in uses:
-                if u.node is st.targets[0]:
+                if any(u.node is t for t in st.targets):
                     u.value = st.value
         elif isinstance(st, (ast.AugAssign, ast.Delete)):
             tg = [st.target] if isinstance(st, ast.AugAssign) else st.targets
@@ -344,6 +344,61 @@ def _guarded_statements(f, uses):
     return out
 
 
+def stamped_entries(fn: _Fn, f, uses):
+    """entries of the form (stamp, value...) that are used only after `entry[0]` has been compared with the stamp of the current call:
+
+        hit = M.get(k)                      (or M[k])
+        if hit is None or hit[0] != stamp:  hit = M[k] = (stamp, <computed>)
+        ... hit[1] ...
+
+    The look-up key k then only chooses the slot; what decides whether a stored value is used is the stamp.  Returns (stamp expression, value expressions)
+    when every store and every consulted entry has this form, else None."""
+    stores = [u for u in uses if u.kind == "store"]
+    loads = [u for u in uses if u.kind == "load"]
+    if not stores or not loads or any(u.kind in ("test", "add") for u in uses):
+        return None
+    if not all(isinstance(u.value, ast.Tuple) and len(u.value.elts) >= 2 for u in stores):
+        return None
+    resolve = lambda e: _dump(fn.single(e.id)) if isinstance(e, ast.Name) and fn.single(e.id) is not None else _dump(e)
+    stamps = {resolve(u.value.elts[0]) for u in stores}
+    if len(stamps) != 1:
+        return None
+    # locals that hold an entry: bound from a load of the container or from the stored tuple itself
+    entry_locals = set()
+    for st in ast.walk(f):
+        if isinstance(st, ast.Assign):
+            names = [t.id for t in st.targets if isinstance(t, ast.Name)]
+            if not names:
+                continue
+            if any(st.value is u.node for u in loads) or any(any(t is u.node for t in st.targets) for u in stores):
+                entry_locals |= set(names)
+    if not entry_locals:
+        return None
+    # every load must be bound to such a local (not used in place)
+    bound_loads = {id(st.value) for st in ast.walk(f) if isinstance(st, ast.Assign) and any(isinstance(t, ast.Name) for t in st.targets)}
+    if any(id(u.node) not in bound_loads for u in loads):
+        return None
+    # the validating branch: `if <entry> is None or <entry>[0] != stamp:` whose body rebinds the entry local from a store
+    validated = set()
+    for st in ast.walk(f):
+        if not isinstance(st, ast.If):
+            continue
+        parts = st.test.values if isinstance(st.test, ast.BoolOp) and isinstance(st.test.op, ast.Or) else [st.test]
+        for c in parts:
+            if isinstance(c, ast.Compare) and len(c.ops) == 1 and isinstance(c.ops[0], ast.NotEq) and isinstance(c.left, ast.Subscript) \
+                    and isinstance(c.left.value, ast.Name) and c.left.value.id in entry_locals and isinstance(c.left.slice, ast.Constant) and c.left.slice.value == 0 \
+                    and resolve(c.comparators[0]) in stamps:
+                rebinds = any(isinstance(b, ast.Assign) and any(isinstance(t, ast.Name) and t.id == c.left.value.id for t in b.targets)
+                              and any(any(t is u.node for t in b.targets) for u in stores) for b in st.body)
+                if rebinds and not st.orelse:
+                    validated.add(c.left.value.id)
+    if validated != entry_locals:
+        return None
+    stamp = stores[0].value.elts[0]
+    values = [e for u in stores for e in u.value.elts[1:]]
+    return stamp, values
+
+
 def analyse(mod, q, f, is_container, uses_elsewhere):
     """verdict for one container written in function f (qualname q).  `uses_elsewhere`: occurrences of the container outside f"""
     fn = _Fn(f)
@@ -361,7 +416,14 @@ def analyse(mod, q, f, is_container, uses_elsewhere):
         return None, "the container is addressed with more than one key expression"
     comps = key_components(fn, uses[0].key)
     key_name = uses[0].key.id if isinstance(uses[0].key, ast.Name) else None
+    stamped = stamped_entries(fn, f, uses)
+    if stamped is not None:
+        # the slot is chosen by the look-up key, the entry is used only when its stamp equals the stamp of this call: the stamp is the key that matters
+        comps = key_components(fn, stamped[0])
+        key_name = stamped[0].id if isinstance(stamped[0], ast.Name) else None
     det, problems, notes = determined_by(fn, comps)
+    if stamped is not None:
+        notes.append("entries carry a stamp that is compared before an entry is used; a stale entry is replaced")
     # what the memoised computation reads
     guarded = _guarded_statements(f, uses)
     exprs = []
@@ -369,7 +431,10 @@ def analyse(mod, q, f, is_container, uses_elsewhere):
         if u.kind == "store":
             if u.value is None:
                 return None, "store whose value could not be located"
-            exprs.append(u.value)
+            if stamped is None:
+                exprs.append(u.value)
+    if stamped is not None:
+        exprs.extend(stamped[1])
     is_set = all(u.kind == "add" for u in writes)
     if is_set or guarded:
         # the outcome of everything that a hit skips (raising or not, values returned) must be a function of the key as well
